@@ -293,14 +293,16 @@ def run(ctx):
     traces, cases = [], []
     deep_traces, deep_cases = [], []
     nlists = 1500 if quick else 20000
-    fixed = [["a", "x y"], ["a", "v w x"], ["aa", "a b"], ["help", "a b"], ["a", "x y", "-f"], ["x", "a b", "v"], ["a", "a b"], ["aa", "x y", "v w x"]]
+    fixed = [["a", "x y"], ["a", "v w x"], ["aa", "a b"], ["help", "a b"], ["a", "x y", "-f"], ["x", "a b", "v"], ["a", "a b"], ["aa", "x y", "v w x"],
+             # a backslash in front of a line break is two ordinary characters of the token
+             ["a", "x\\\ny"], ["a\\\nb"], ["x", "\\\r\nz", "v"], ["a", "q\\\n"]]
     for it in range(nlists):
         n = ctx.rng.randint(0, 4)
         toks, styles = [], []
         wordy = ctx.rng.random() < 0.4 or it < len(fixed)
         if it < len(fixed):   # a command name followed by values with blanks inside, each list once
             n = len(fixed[it])
-            toks, styles = list(fixed[it]), ["dq" if " " in t else "no" for t in fixed[it]]
+            toks, styles = list(fixed[it]), ["dq" if any(c in t for c in " \n\r") else "no" for t in fixed[it]]
         for _k in range(0 if it < len(fixed) else n):
             while True:
                 t = ctx.rng.choice(words) if wordy else "".join(ctx.rng.choice(alpha) for _j in range(ctx.rng.randint(0, 5)))
